@@ -68,7 +68,7 @@ def _script(real, what, pkg, dur, fail, depth, variant=False):
         lines += ['echo "end %s $PWD fail" >> "$L"' % tag, "exit 1"]
     else:
         lines += [
-            'OUT="%s-%s%s("' % (pkg, what, "-$V" if variant else ""),
+            'OUT="%s-%s%s("' % (pkg, what, "-${V:-}" if variant else ""),   # V is unset when the package is built as a root
             'for i in "$@" ; do if [ -f "$i/result.txt" ] ; then OUT="$OUT$(cat "$i/result.txt"),"; else OUT="$OUT?,"; fi; done',
             'echo "$OUT)" > result.txt',
             'echo "end %s $PWD ok" >> "$L"' % tag,
